@@ -543,10 +543,12 @@ func runFed(cfg *runCfg, prop string) error {
 				oracle = fmt.Sprintf("c07_holds exp%d %d obs%d", id, nfaults, id)
 			case "C13":
 				single := "false"
-				if !cs.Fed.HasPrio && len(obs.Calls) > 0 && len(op.SelectionSet) == 1 {
-					// every field occurrence is offered by the service that answered the root field
-					single = fmt.Sprintf("forallb (fun oc => match assoc (url_key (oc_tcond oc) (oc_name oc)) %s with Some l => GoStr.str_mem %s l | None => false end) (flat_map (occs %d %s %s %s []) %s)",
-						c.URLMap(fed.Cap.Locs), c.S(obs.Calls[0].Service), len(parsed.Fragments)+2, c.FieldTypes(fed.Cap.Schema), frags, c.S(root), sels)
+				if len(obs.Calls) > 0 && len(op.SelectionSet) == 1 {
+					// every field occurrence is offered by the service that answered the root field, and no
+					// configured priority names another service that offers it (a priority that does not
+					// apply directs nothing elsewhere)
+					single = fmt.Sprintf("forallb (fun oc => match assoc (url_key (oc_tcond oc) (oc_name oc)) %s with Some l => GoStr.str_mem %s l && forallb (fun p => String.eqb p %s || negb (GoStr.str_mem p l)) %s | None => false end) (flat_map (occs %d %s %s %s []) %s)",
+						c.URLMap(fed.Cap.Locs), c.S(obs.Calls[0].Service), c.S(obs.Calls[0].Service), c.Strs(cs.Fed.Priorities), len(parsed.Fragments)+2, c.FieldTypes(fed.Cap.Schema), frags, c.S(root), sels)
 				}
 				// realised insertion points the executor spawned, and per static path how many steps hang there
 				stepsAt := map[string]int{}
